@@ -32,6 +32,15 @@ def rng_for(seed: int, *keys) -> np.random.Generator:
     return np.random.default_rng(subseed(seed, *keys))
 
 
+def off(got, exp, tol):
+    """True where `got` differs from `exp` by more than `tol` - NaN-aware: a NaN or an infinity on one side only is a
+    difference (a plain `abs(got - exp) > tol` is False for NaN and would let it pass); equal infinities and NaN on both
+    sides are not.  Works elementwise on arrays and on scalars."""
+    g, e = np.asarray(got, np.float64), np.asarray(exp, np.float64)
+    with np.errstate(invalid="ignore"):
+        return ~((g == e) | (np.isnan(g) & np.isnan(e)) | (np.abs(g - e) <= tol))
+
+
 def to_jsonable(x):
     """Best-effort conversion of arrays / pytrees to plain JSON types."""
     if x is None or isinstance(x, (bool, int, str)):
